@@ -1,9 +1,11 @@
 /- Line-protocol driver for the search model (C01-C04, C09-C14).  See harness/engines/search.py. -/
 import MM.Model.Search
 import MM.Model.Admit
+import MM.Model.Api
 import MM.Driver.Wire
 import Std.Data.HashMap
 open MM MM.Search MM.Admit Wire
+open MM.Api (World State Op Out)
 
 structure PairRec where
   impact : PyFloat
@@ -66,13 +68,49 @@ def runInst (inst : Inst) : IO Unit := do
   | some (.ok ds) => for d in ds do IO.println ("greedy " ++ showDesign d)
   IO.println "end"
 
+def worldOf (inst : Inst) : World :=
+  { rows := inst.rows.toList, nGeosMax := inst.ngeosmax,
+    env := fun idx => mkEnv { inst with idx := idx } (admittedClasses inst.rows.toList idx) }
+
+def showOut : Out → String
+  | .geos l => "geos " ++ showSet l
+  | .classes l => "classes " ++ " ".intercalate (l.map fun c => toString (repr c))
+  | .sizes l => "sizes " ++ showSet l
+  | .num n => s!"num {n}"
+  | .groups l => "groups " ++ ";".intercalate (l.map showSet)
+  | .bool b => s!"bool {b}"
+  | .designs l => "designs " ++ ";".intercalate (l.map fun (t, c, sc) => s!"{showSet t}|{showSet c}|{showScore sc}")
+  | .err e => "err " ++ e.name
+  | .diverge => "diverge"
+
+def parseOp : List String → Option Op
+  | ["withinConstraints"] => some .withinConstraints
+  | ["assignments"] => some .assignments
+  | ["sizeRange"] => some .sizeRange
+  | ["count"] => some .count
+  | ["trt", n] => n.toNat?.map .trtGroups
+  | ["ctl", t] => some (.ctlGroups (parseSet t))
+  | ["ok", t, c] => some (.designOk (parseSet t) (parseSet c))
+  | ["exhaustive"] => some .exhaustive
+  | ["greedy"] => some (.greedy 100000)
+  | ["results"] => some .results
+  | _ => none
+
 def optRange (a b : String) : Option (Int × Int) :=
   match a.toInt?, b.toInt? with | some a, some b => some (a, b) | _, _ => none
 
-partial def loop (h : IO.FS.Stream) (inst : Inst) : IO Unit := do
+partial def loop (h : IO.FS.Stream) (inst : Inst) (st : State := MM.Api.init {}) : IO Unit := do
   let line ← h.getLine
   if line.isEmpty then return ()
   match words line with
+  | ["api-init"] => loop h inst (MM.Api.init inst.p)
+  | "api" :: rest =>
+    match parseOp rest with
+    | some op =>
+      let r := MM.Api.step (worldOf inst) st op
+      IO.println ("api-out " ++ showOut r.2)
+      loop h inst r.1
+    | none => IO.println "bad-op api"; loop h inst st
   | ["inst", id] => IO.println ("inst " ++ id); loop h {}
   | ["param", "trt", a, b] => loop h { inst with p := { inst.p with trtRange := optRange a b } }
   | ["param", "ctl", a, b] => loop h { inst with p := { inst.p with ctlRange := optRange a b } }
